@@ -51,10 +51,14 @@ def nonce : AnyClaim → Nat
   | stf c => c.EventNonce | bc c => c.EventNonce | bcr c => c.EventNonce | ste c => c.EventNonce | bt c => c.EventNonce
   | osu c => c.EventNonce
 
-/-- the types `AttestationHandler` stores for `ExecuteClaim` instead of executing them at once -/
-def deferred : AnyClaim → Bool
-  | stf _ | bc _ | bcr _ => true
-  | _ => false
+/-- the Go type name of the claim -/
+def typeName : AnyClaim → String
+  | stf _ => "MsgSendToFxClaim" | bc _ => "MsgBridgeCallClaim" | bcr _ => "MsgBridgeCallResultClaim"
+  | ste _ => "MsgSendToExternalClaim" | bt _ => "MsgBridgeTokenClaim" | osu _ => "MsgOracleSetUpdatedClaim"
+
+/-- the types `AttestationHandler` stores for `ExecuteClaim` instead of executing them at once: the REGENERATED case list of
+the `SavePendingExecuteClaim` clause of its type switch -/
+def deferred (c : AnyClaim) : Bool := FxVerif.Gen.C03.storedTypes.contains c.typeName
 
 /-- the type and every effect-relevant field -/
 def effect : AnyClaim → AnyClaim
